@@ -50,7 +50,9 @@ ExpandLogic(h) ==
                                        \* list items that are not literals
                                        Cmp("in", nC, Lst(<<mC, IntL(3)>>)), Cmp("in", nC, Lst(<<Bin("add", mC, IntL(1)), Bin("sub", IntL(0), mC)>>)),
                                        \* list members that repeat (every member is rendered, in its place)
-                                       Cmp("in", nC, Lst(<<IntL(1), IntL(3), IntL(1)>>)), Cmp("in", mC, Lst(<<nC, IntL(3), nC>>)) } }
+                                       Cmp("in", nC, Lst(<<IntL(1), IntL(3), IntL(1)>>)), Cmp("in", mC, Lst(<<nC, IntL(3), nC>>)),
+                                       \* whole decimals beyond the 64-bit integer range (they stay decimals)
+                                       Cmp("lt", nC, FL("1e19")), Cmp("gt", mC, FL("-1E19")), Cmp("in", nC, Lst(<<FL("1e19"), IntL(1)>>)) } }
                   \cup { <<1, Bool("and", HB, HB)>>, <<1, Bool("or", HB, HB)>>, <<1, Un("not", HB)>>,
                          <<1, Cmp("eq", HB, BoolL("true"))>>, <<1, Cmp("ne", HB, BoolL("false"))>> }
                   \* chains of three and four operands of one connective whose FIRST operand is a group of the other one
@@ -98,7 +100,7 @@ ExpandStrings(h) ==
                   \cup { <<0, Cmp(o, C1("toupper", HS), SL(<<65, 66>>))>> : o \in {"eq", "ne", "lt"} }
                   \* a string predicate in a negated position (an unknown stays unknown, a shortcut to TRUE / FALSE shows)
                   \cup { <<1, Un("not", HB)>>, <<1, Cmp("eq", HB, BoolL("false"))>> }
-    [] h = "S" -> { <<0, x>> : x \in {sC, uC, SL(<<97>>), SL(<<37>>)} }
+    [] h = "S" -> { <<0, x>> : x \in {sC, uC, SL(<<97>>), SL(<<37>>), SL(<<>>)} }
                   \cup { <<1, C2("concat", HS, HS)>>, <<1, C1("tolower", HS)>>, <<1, C1("trim", HS)>> }
                   \* left- and right-nested concatenation with a separator (order and grouping both matter)
                   \cup { <<1, C2("concat", C2("concat", HS, SL(<<45>>)), uC)>>, <<1, C2("concat", sC, C2("concat", SL(<<45>>), HS))>> }
